@@ -198,3 +198,144 @@ def register(reg):
             properties=("C11",),
         )
     )
+
+
+# ====================================================================================================
+# ScenicToPythonTransformer.createRequirementLike: the proposition tree is wrapped, unchanged, into the veneer call
+#
+# Oracle (property statement + reference of `require`): the compiled statement is ONE call of the function implementing the
+# statement (`require`) whose arguments are the id under which the source syntax is registered, the proposition tree of the
+# SOURCE formula (same operators, operands in source order, atoms = the source expressions), the line number and the name
+# given by the user, and -- as keyword -- the probability written in the statement; the transformer's atom counter advances
+# by the number of atoms so that later requirements get fresh ids.
+
+RL_CASES = [
+    # (index into SOURCES, line, name, probability, already registered requirements, first syntax id)
+    (0, 3, None, None, 0, 0),
+    (4, 7, "safe", None, 2, 5),
+    (9, 12, None, None, 1, 3),
+    (13, 1, "r", None, 0, 0),
+    (16, 4, "both", 0.5, 3, 2),
+    (17, 9, None, 0.25, 0, 7),
+    (20, 2, None, None, 1, 1),
+]
+
+
+def register_create_requirement_like(reg):
+    tgt = f"{COMP}:ScenicToPythonTransformer.createRequirementLike"
+    cn = short_of(tgt)
+
+    def setup(I, env):
+        eng = I.eng
+        k = eng.choose(len(RL_CASES), "requirement statement")
+        idx, line, name, prob, n_prev, start = RL_CASES[k]
+        src = SOURCES[idx]
+        eng.input_syms.append(("case", C.Const(k), k))
+        node = parse_requirement(src)
+        want = expected(node)
+        self = PObj(repo_class(f"{COMP}:ScenicToPythonTransformer"), tag="transformer")
+        prev = [pyast.Name(id=f"earlier_requirement_{j}", ctx=pyast.Load()) for j in range(n_prev)]
+        visited = []
+
+        def visit(x):
+            visited.append(x)
+            return x
+
+        self.fields.update(filename="<test>", nextSyntaxId=start, requirements=PList(list(prev)), visit=BuiltinFn("visit", visit))
+        probnode = pyast.Constant(prob) if prob is not None else None
+        kwargs = {"prob": probnode} if prob is not None else {}
+        from pyvc.values import PDict
+
+        env.vars.update(self=self, functionName="require", body=node, lineno=line, name=name, kwargs=PDict(list(kwargs.items())), _want=want, _case=RL_CASES[k], _prev=prev, _probnode=probnode, _visited=visited)
+
+    def post(I, env, outcome):
+        eng = I.eng
+        if outcome[0] != "return":
+            return
+        idx, line, name, prob, n_prev, start = env.vars["_case"]
+        want, self = env.vars["_want"], env.vars["self"]
+        res = outcome[1]
+        ok = isinstance(res, pyast.Expr) and isinstance(res.value, pyast.Call) and isinstance(res.value.func, pyast.Name)
+        eng.check(f"{cn}#ensures.one_call_statement", ok)
+        if not ok:
+            return
+        call = res.value
+        args = items(call.args)
+        eng.check(f"{cn}#ensures.calls_the_function_implementing_the_statement", call.func.id == "require")
+        ok = len(args) == 4
+        eng.check(f"{cn}#ensures.arguments_are_id_proposition_line_name", ok)
+        if not ok:
+            return
+        ids = []
+        got = decode(args[1], ids)
+        eng.check(f"{cn}#ensures.proposition_tree_of_the_source_formula_unchanged", got == want, detail=f"got {got}, expected {want}")
+        eng.check(f"{cn}#ensures.proposition_tree_is_what_the_expression_compiler_returned_for_the_transformed_tree", len(env.vars["_visited"]) == 1 and env.vars["_visited"][0] is args[1])
+        eng.check(f"{cn}#ensures.line_number_unchanged", isinstance(args[2], pyast.Constant) and args[2].value == line)
+        eng.check(f"{cn}#ensures.name_unchanged", isinstance(args[3], pyast.Constant) and args[3].value == name and (name is None) == (args[3].value is None))
+        kws = items(call.keywords)
+        if prob is None:
+            eng.check(f"{cn}#ensures.no_probability_keyword_unless_written", kws == [])
+        else:
+            eng.check(f"{cn}#ensures.probability_passed_unchanged_as_keyword", len(kws) == 1 and kws[0].arg == "prob" and kws[0].value is env.vars["_probnode"])
+        n = count_atoms(want)
+        eng.check(f"{cn}#ensures.atom_ids_fresh_and_counter_advanced_by_the_number_of_atoms", ids == list(range(start, start + n)) and self.fields["nextSyntaxId"] == start + n, detail=f"ids {ids}, next {self.fields['nextSyntaxId']}")
+        reqs = items(self.fields["requirements"])
+        rid = args[0].value if isinstance(args[0], pyast.Constant) else None
+        eng.check(f"{cn}#ensures.source_syntax_registered_once_under_the_id_passed_to_the_call", len(reqs) == n_prev + 1 and rid == n_prev and reqs[rid] is env.vars["body"] and all(a is b for a, b in zip(reqs, env.vars["_prev"])))
+
+    def replay(inputs, clause):
+        """The whole front end on `require[p] <formula> as <name>` statements placed on given lines."""
+        from scenic.syntax.compiler import compileScenicAST
+        from scenic.syntax.parser import parse_string
+
+        for idx, line, name, prob, n_prev, start in RL_CASES:
+            formula = SOURCES[idx][len("require ") :]
+            stmt = "require" + (f"[{prob}]" if prob is not None else "") + " " + formula + (f" as {name}" if name else "")
+            filler = "".join(f"require always earlier{j}\n" for j in range(n_prev))
+            src = filler + "\n" * (line - 1 - n_prev if line - 1 - n_prev > 0 else 0) + stmt + "\n"
+            real_line = src.count("\n")
+            want = expected(parse_string(stmt + "\n", "exec").body[0].cond)
+            tree, reqs = compileScenicAST(parse_string(src, "exec"))
+            calls = [c for c in pyast.walk(tree) if isinstance(c, pyast.Call) and isinstance(c.func, pyast.Name) and c.func.id == "require"]
+            if len(calls) != n_prev + 1:
+                return f"`{stmt}` after {n_prev} other requirements compiles to {len(calls)} `require` calls"
+            call = calls[-1]
+            got = decode(call.args[1], [])
+            if got != want:
+                return f"`{stmt}`: the compiled call carries the proposition {got}; the source formula is {want}"
+            ln, nm = call.args[2].value, call.args[3].value
+            kw = {k.arg: getattr(k.value, "value", None) for k in call.keywords}
+            if ln != real_line or nm != name or kw != ({"prob": prob} if prob is not None else {}):
+                return f"`{stmt}` on line {real_line}: compiled call has line {ln}, name {nm!r}, keywords {kw}; written: line {real_line}, name {name!r}, probability {prob}"
+            if call.args[0].value != n_prev or len(reqs) != n_prev + 1:
+                return f"`{stmt}` as requirement number {n_prev} of the module: compiled with requirement id {call.args[0].value}, {len(reqs)} syntax trees registered"
+            all_ids = []
+            for c in calls:
+                decode(c.args[1], all_ids)
+            if all_ids != list(range(len(all_ids))):
+                return f"`{stmt}` after {n_prev} other requirements: the atoms of the module's requirements carry the syntax ids {all_ids}; they must be unique and increasing across requirements ({list(range(len(all_ids)))})"
+        return None
+
+    reg.add(
+        C.Contract(
+            tgt,
+            params=dict(self=C.Const(None), functionName=C.Const(None), body=C.Const(None), lineno=C.Const(None), name=C.Const(None), kwargs=C.Const(None)),
+            setup=setup,
+            post=post,
+            raises=[C.Raises("ScenicParseError", mode="may")],
+            inline_all=True,
+            replay=replay,
+            bounded=True,
+            note=f"{len(RL_CASES)} requirement statements (sources of the list above; with / without name and probability; 0-3 requirements registered before; first atom id 0-7); "
+            "the expression compiler (`self.visit` on the transformed tree) is modelled as the identity: compilation of ordinary expressions is C09/C10",
+            properties=("C11",),
+        )
+    )
+
+
+_register_transform = register
+
+
+def register(reg):  # noqa: F811
+    _register_transform(reg)
+    register_create_requirement_like(reg)
